@@ -102,6 +102,11 @@ def string_variants(us):
     if f == 0:
         out.append(('no-fraction', head))
         out.append(('no-fraction+00:00', head + '+00:00'))
+    # other exact fraction lengths (strptime's %f takes one to six digits); a five-digit fraction is as long as the
+    # fraction-free string with '+00:00', a two-digit one as long as ... (equal lengths, different layouts, back to back)
+    for nd in (5, 4, 2, 1):
+        if f % 10 ** (6 - nd) == 0:
+            out.append((f'fraction{nd}', f'{head}.{f // 10 ** (6 - nd):0{nd}d}'))
     return out
 
 
